@@ -41,10 +41,11 @@ func judge(sc *scen.Scenario, res *scen.Result, runErr error) (string, map[strin
 		id  int64
 		seq int32
 		ok  bool
-		ack bool
-		g   string
+		ack  bool
+		g    string
+		conn int
 	}
-	perConn := map[int]*last{}
+	perConn := map[int64]*last{} // one stream per session id: a reconnection continues the same stream
 	acked := map[int64]bool{}
 	for _, ev := range res.Events {
 		switch ev.Kind {
@@ -55,11 +56,15 @@ func judge(sc *scen.Scenario, res *scen.Result, runErr error) (string, map[strin
 				acked[id] = true
 			}
 		case "enc":
-			l := perConn[ev.Conn]
+			l := perConn[ev.Session]
 			if l == nil {
 				l = &last{}
-				perConn[ev.Conn] = l
+				perConn[ev.Session] = l
 			}
+			if l.ok && l.conn != ev.Conn {
+				feats["stream-continues-after-reconnect"] = true
+			}
+			l.conn = ev.Conn
 			if ev.MsgID&3 != 0 {
 				return "violation", feats, fmt.Errorf("msg_id %d is not a multiple of four", ev.MsgID)
 			}
@@ -148,6 +153,14 @@ func gen(t *rapid.T) (*scen.Scenario, []string) {
 		}
 	}
 	steps = append(steps, scen.Step{Op: "await-calls"}, scen.Step{Op: "probe"}, scen.Step{Op: "await-acks"})
+	if rapid.IntRange(0, 3).Draw(t, "reconnect") == 0 {
+		// the server closes the connection; the same session goes on over a new one
+		more := scen.Callers(s, rapid.IntRange(1, 3).Draw(t, "ncallers2"), 2, 5000+rapid.IntRange(0, 1000).Draw(t, "base2"))
+		steps = append(steps, scen.Step{Op: "close"}, scen.Step{Op: "await-reconnect", N: 2}, scen.Step{Op: "probe", Retry: true}, scen.Step{Op: "call", Calls: more})
+		steps, _ = scen.AnswerRounds(s, steps, more, 0)
+		steps = append(steps, scen.Step{Op: "await-calls"}, scen.Step{Op: "probe"})
+		cls = append(cls, "server-history:close-and-reconnect")
+	}
 	sc.RPC.Steps = steps
 	sc.GoMaxProcs = rapid.SampledFrom([]int{1, 2, 16}).Draw(t, "gomaxprocs")
 	if ncallers >= 2 {
